@@ -13,6 +13,7 @@
 """
 from __future__ import annotations
 import copy
+from collections import OrderedDict
 import hashlib
 import io
 import json
@@ -37,12 +38,20 @@ VERSIONS = {0: None, 76: 7.6, 80: 8.0}
 # ================================================================================ snapshots
 
 
+def items_of(o):
+    """(key, value) pairs in the order the dictionary iterates (an OrderedDict keeps its order in
+    its own linked list: dict.items would miss a move_to_end)"""
+    if isinstance(o, OrderedDict):
+        return list(OrderedDict.items(o))
+    return list(dict.items(o))
+
+
 def snap(o, ids=True):
     """deep snapshot: container kind, Python type, identity, ordered content"""
     if isinstance(o, dict):
         return ["D", type(o).__name__, id(o) if ids else 0,
                 [[k if isinstance(k, str) else repr(k), type(k).__name__, snap(v, ids)]
-                 for k, v in list(dict.items(o))]]
+                 for k, v in items_of(o)]]
     if isinstance(o, (list, tuple)):
         return ["L", type(o).__name__, id(o) if ids else 0, [snap(x, ids) for x in o]]
     return ["S", type(o).__name__, repr(o)]
@@ -550,7 +559,7 @@ LARK_ERRORS = {c.__name__ for c in (impl.lark.exceptions.UnexpectedToken, impl.l
 
 def _collect_comments(d, out):
     if isinstance(d, dict):
-        for k, v in list(dict.items(d)):
+        for k, v in items_of(d):
             if k == "__comments__" and isinstance(v, dict):
                 for c in v.values():
                     if isinstance(c, (list, tuple)):
@@ -616,7 +625,7 @@ class Recorder:
 def object_lists(d, path=()):
     """(path, list) for every list of dicts inside d"""
     if isinstance(d, dict):
-        for k, v in list(dict.items(d)):
+        for k, v in items_of(d):
             if isinstance(v, list) and v and all(isinstance(x, dict) for x in v):
                 yield path + (k,), v
             if isinstance(v, (dict, list)) and not (isinstance(k, str) and k.startswith("__")):
@@ -632,9 +641,11 @@ def purity_doc(rec, name, text=None, fn=None, rng=None, light=False):
     if fn is not None:
         out = rec.call("loads", "open", name, lambda: mappyfile.open(fn, **flags), [fn])
     else:
-        out = rec.call("loads", "loads", name, lambda: mappyfile.loads(text, **flags), [text])
+        # generated documents use INCLUDE as data (expansion is C15's business)
+        out = rec.call("loads", "loads", name, lambda: mappyfile.loads(text, expand_includes=False, **flags), [text])
         if not light:
-            rec.call("loads", "load", name, lambda: mappyfile.load(io.StringIO(text), include_comments=True), [text])
+            rec.call("loads", "load", name,
+                     lambda: mappyfile.load(io.StringIO(text), expand_includes=False, include_comments=True), [text])
     if out[0] != "ok":
         return False
     d = out[1]
@@ -695,6 +706,7 @@ def purity_doc(rec, name, text=None, fn=None, rng=None, light=False):
 
 def task_purity(job):
     """job: {"base": tid base, "seed": n, "texts": [(name, text)], "files": [(name, path)], "light": bool}"""
+    c0 = time.process_time()
     rng = random.Random(job["seed"])
     rec = Recorder(job["base"])
     loaded = 0
@@ -702,7 +714,7 @@ def task_purity(job):
         loaded += bool(purity_doc(rec, name, text=text, rng=rng, light=job.get("light", False)))
     for name, fn in job.get("files", []):
         loaded += bool(purity_doc(rec, name, fn=fn, rng=rng, light=job.get("light", False)))
-    return {"records": rec.records, "cases": rec.cases, "loaded": loaded}
+    return {"records": rec.records, "cases": rec.cases, "loaded": loaded, "cpu": time.process_time() - c0}
 
 
 # ================================================================================ (b) reuse
@@ -754,6 +766,7 @@ class Workers:
 
 def task_reuse(job):
     """job: {"seed", "doctable", "hists": [[call records of one TLC history]], "variants"}"""
+    c0 = time.process_time()
     rng = random.Random(job["seed"])
     docs, refs = get_env(job)
     pre = {k: digest(snap(cd.d)) for k, cd in docs.items() if cd.d is not None}
@@ -795,7 +808,7 @@ def task_reuse(job):
         if pre[k] != post[k]:
             viol.append(("C12|reuse|args|arg-mutated", "dictionary of %s changed during the re-use replay" % (k,),
                          {"part": "reuse-args", "doc": list(k)}))
-    return {"viol": viol, "n": n, "classes": sorted(classes)}
+    return {"viol": viol, "n": n, "classes": sorted(classes), "cpu": time.process_time() - c0}
 
 
 def call_str(desc):
@@ -905,6 +918,7 @@ def pair_sig(script):
 
 def task_schedules(job):
     """job: {"seed", "doctable", "script", "sid", "scheds": [[{"t","at"}...]], "hists": [...], "variants": [[v..]..]}"""
+    c0 = time.process_time()
     install_seams()
     docs, refs = get_env(job)
     script = job["script"]
@@ -974,16 +988,19 @@ def task_schedules(job):
                 if pre[k] != post[k]:
                     docs[k].reload()
     return {"viol": viol, "n": n, "failures": failures, "notes": notes[:5],
-            "seams": [[r[1] for r in row] for row in seq]}
+            "seams": [[r[1] for r in row] for row in seq], "cpu": time.process_time() - c0}
 
 
 # ================================================================================ stress
 
 def task_stress(job):
     """16 free-running threads on the module-level API under a tiny switch interval"""
+    c0 = time.process_time()
     docs, refs = get_env(job)
     menu = []
     for (doc, v), cd in sorted(docs.items()):
+        if v >= job.get("variants", 1):
+            continue
         for com in (True, False):
             menu.append(({"kind": "loads", "doc": doc, "com": com, "ver": 0, "key": "all"}, v))
         if cd.d is not None:
@@ -996,7 +1013,8 @@ def task_stress(job):
                for m in menu]
     for desc, v in menu:
         refs.get(desc, v)
-    pre = {k: digest(snap(cd.d)) for k, cd in docs.items() if cd.d is not None}
+    used = sorted({(d["doc"], v) for d, v in menu})
+    pre = {k: digest(snap(docs[k].d)) for k in used if docs[k].d is not None}
     viol = []
     counts = {}
     lock = threading.Lock()
@@ -1034,8 +1052,8 @@ def task_stress(job):
         stuck = any(t.is_alive() for t in ts)
     finally:
         sys.setswitchinterval(old)
-    post = {k: digest(snap(cd.d)) for k, cd in docs.items() if cd.d is not None}
+    post = {k: digest(snap(docs[k].d)) for k in pre}
     if pre != post:
         viol.append(("C12|stress|args|arg-mutated", "an argument dictionary changed during the stress run",
                      {"part": "stress-args"}))
-    return {"viol": viol[:5], "counts": counts, "stuck": stuck}
+    return {"viol": viol[:5], "counts": counts, "stuck": stuck, "cpu": time.process_time() - c0}
